@@ -19,6 +19,12 @@ LEVEL_TEXT = {
             "text": "bounded symbolic execution of the real record_store.rs + cmd.rs arms over every history of <=3 operations on <=2 keys and every completion order of the spawned tasks (FIFO per key); cache timestamps are symbolic; obligations (reads return only accepted bytes; settled state equals last accepted write / removal) are discharged per path"},
     "C02": {"engine": "symrt (engine D)", "technique": D_TECH, "note": D_NOTE,
             "text": "bounded symbolic execution of the real record_store.rs: history, crash with any subset of background tasks run and one write torn at every byte prefix, restart through the real with_config; real AES-GCM-SIV runs on each path; index/distance consistency after restart is decided by the solver over 256-bit symbolic hashes"},
+    "C08": {"engine": "symrt (engine D)", "technique": D_TECH, "note": D_NOTE,
+            "text": "bounded symbolic execution of the real replication_fetcher.rs: each fetcher entry point from arbitrary small states with symbolic 256-bit distances, symbolic deadlines and clock; obligations per call (held/in-range/farthest filters, no duplicate fetch, parallel limit, closest first, expiry reporting, completion) and a 2-round bounded progress obligation"},
+    "C09": {"engine": "symrt (engine D)", "technique": D_TECH, "note": D_NOTE,
+            "text": "per-round obligations of replication decided on the real try_interval_replication / get_replicate_candidates / add_keys_to_replication_fetcher / add_keys bodies with symbolic distances, range and timestamps; multi-round convergence itself is not claimed"},
+    "C11": {"engine": "symrt (engine D)", "technique": D_TECH, "note": D_NOTE,
+            "text": "closeness decisions (sort_peers_by_address/key, get_peers_in_range, get_replicate_candidates, calculate_get_closest_peers) executed symbolically over 256-bit symbolic hashes: output order, k-nearest and range filters compared with the XOR integer by the solver"},
     "C10": {"engine": "symrt (engine D)", "technique": D_TECH, "note": D_NOTE,
             "text": "bounded symbolic execution of the real record_store.rs / cmd.rs arms: every path of one store operation from small reachable states (capacity 1..3), with 256-bit symbolic hashes and a symbolic responsible range, is decided by the SMT solver; burst, clean-up threshold and restart harnesses"},
 }
